@@ -174,7 +174,7 @@ func (c *Ctx) restoreSpec(origFields map[string]bool, tb *ir.TB) ir.TSpec {
 }
 
 func c03(c *Ctx) {
-	c.R.Explanation = "C03: structural necessary conditions decided on the SSA of /repo. R-exit = in the control goroutine of every FanController.Run implementation (the run.Group actor whose call tree reaches UpdateFanSpeed) every path from entry to a return ends in state 'restored' of a typestate whose accepting events are (a) the success edge (err == nil) of Fan.SetPwmEnabled(x) with x = the controller field recorded from GetPwmEnabled() at start and the call dominated by x != ControlModePWM, or (b) Fan.SetPwm(255); any other Fan.SetPwm / SetPwmEnabled(manual) resets it. Helper functions are followed with state-relation summaries (this is R-shape: the restore routine itself must reach 'restored' on all paths). R-init = from the error edge of RunInitializationSequence in Run every return is preceded by a call that establishes 'restored'. R-readback = every Fan.SetPwmEnabled implementation that writes a mode file returns nil after a successful write only across an edge establishing read-back == requested value (or the documented ErrPermission exception). R-signal = the signal actor receives from a channel registered with signal.Notify for SIGTERM and SIGINT, an interrupt function of the same run.Group calls the cancel function of the context.WithCancel whose context is handed to every FanController.Run, and that channel is closed only after signal.Stop on all paths. R-actor-nil (shared with C09) = every actor of the per-fan groups and the sensor monitor returns the nil constant: a non-nil actor error reaches panic(err) / ui.Fatal and kills the process during shutdown before the fans are restored. Not decided: driver behaviour, timing, a final PWM write that itself fails, crashes (C09)."
+	c.R.Explanation = "C03: structural necessary conditions decided on the SSA of /repo. R-exit = in the control goroutine of every FanController.Run implementation (the run.Group actor whose call tree reaches UpdateFanSpeed) every path from entry to a return ends in state 'restored' of a typestate whose accepting events are (a) the success edge (err == nil) of Fan.SetPwmEnabled(x) with x = the controller field recorded from GetPwmEnabled() at start and the call dominated by x != ControlModePWM, or (b) Fan.SetPwm(255); any other Fan.SetPwm / SetPwmEnabled(manual) resets it. Helper functions are followed with state-relation summaries (this is R-shape: the restore routine itself must reach 'restored' on all paths). R-init = from the error edge of RunInitializationSequence in Run every return is preceded by a call that establishes 'restored'. R-readback = every Fan.SetPwmEnabled implementation that writes a mode file returns nil after a successful write only across an edge establishing read-back == requested value (or the documented ErrPermission exception). R-signal = the signal actor receives from a channel registered with signal.Notify for SIGTERM and SIGINT, an interrupt function of the same run.Group calls the cancel function of the context.WithCancel whose context is handed to every FanController.Run, and that channel is closed only after signal.Stop on all paths. R-actor-nil (shared with C09) = every actor of the per-fan groups and the sensor monitor returns the nil constant: a non-nil actor error reaches panic(err) / ui.Fatal and kills the process during shutdown before the fans are restored. R-write = every Fan.SetPwm implementation passes a write to the device (a library Write*/exec run, directly or through a repository helper) on every path that can return a nil error: the typestate takes a nil result of SetPwm(255) for 'the fan is at full speed'. Not decided: driver behaviour, timing, a final PWM write that itself fails, crashes (C09)."
 	c.R.Assumptions = append(c.R.Assumptions,
 		"oklog/run: Add(execute, interrupt): when the first actor returns every interrupt function is called once",
 		"os/signal sends non-blockingly to every channel registered with Notify until Stop; a send on a closed channel panics",
